@@ -23,6 +23,12 @@ Fixpoint disc_of_name (vs : list (N * string)) (name : string) : option N :=
   | (d, n) :: vs' => if String.eqb n name then Some d else disc_of_name vs' name
   end.
 
+(* FieldDataType::ProtocolType in from_field_type (repair of the unnamed-protocol defect): the
+   variant with that discriminant, or Unknown for a number the enum has no variant for *)
+Definition proto_unknown : N := match disc_of_name proto_variants "Unknown" with Some d => d | None => 255 end.
+Definition proto_decode (b : N) : N := match proto_parse b with Some d => d | None => proto_unknown end.
+
+
 (* ---- layout interpreter ---- *)
 Fixpoint env_get (name : string) (env : list (string * N)) : N :=
   match env with
